@@ -20,7 +20,7 @@ RULE = (
 )
 ASSUMPTIONS = ["the pessimistic set is taken as observed (its correctness is C11's question)",
                "bands: rectangles 1e-12 rel for domination (closed form), ellipsoids 2e-6+1e-4*mag"]
-N = {"quick": 190, "thorough": 6000}
+N = {"quick": 190, "thorough": 3500}
 VARS = ["PaVeBa", "PaVeBaGP-IH", "PaVeBaGP-DE", "PartialGP-rect", "PartialGP-ell", "VOGP", "EpsilonPAL", "Auer", "Auer-emp", "VOGP", "EpsilonPAL"]
 REQUIRE = {"quick": {"must_discard": 300, "must_keep": 1500, "runs": 150, "vogp_ad_runs": 10, "frozen_witness_scenario_reached": 2, "frozen_witness_bandit_scenario_reached": 1, "auer_certified_only_by_per_objective_sum": 10,
                      **{f"must_discard::{v}": 5 for v in set(VARS)}, **{f"must_keep::{v}": 20 for v in set(VARS)}}}
@@ -175,7 +175,7 @@ def shard(mon, tier, rng, shard_no, nshards):
         directed_frozen_witness_bandit(mon)
     for _ in range(1 if tier == "quick" else 6):
         ad_run(mon, rng)
-    for _ in range(4 if tier == "quick" else 40):
+    for _ in range(4 if tier == "quick" else 20):
         directed_auer_emp(mon, rng)
     n = max(len(VARS), N[tier] // nshards)
     if shard_no == 0:
